@@ -247,7 +247,10 @@ class Report:
             self.ob("R-control", "build-mode-cfg/scan", True, "%d function bodies scanned for test-/debug-only conditional compilation" % ncfg, "src/")
         if n:
             self.clause("R-control", "none of the %d functions this check interprets leaves early except through an error exit (no early success return, break or continue), "
-                                     "so reasoning about the fall-through path covers every successful call" % n)
+                                     "so reasoning about the fall-through path covers every successful call; and every name the rules read means one thing: no test-/debug-only "
+                                     "conditional compilation inside any function body of the crate, no items declared inside bodies, no second definition of a function, no inherent method "
+                                     "or implementation replacing a trait method the rules read, no renaming import, `t!` and the logging wrappers defined as the rules read them "
+                                     "(re-bound locals are renamed apart by the normaliser; a re-assigned parameter fails the rule that reads it)" % n)
 
     def finish(self, level="other", explanation="", checker_cmd=""):
         self.control_obligations()
